@@ -90,8 +90,24 @@ def run_case(case, ctx):
         ctx.count("x_constant_rejected_loudly")       # outside the domain: a loud rejection is never a violation
         return []
     p = case["c"]
-    return {"kind": "ternary", "c": p, "t": proj(t) if t is not None else {}, "map": [[n, mp[n]] for n in p["names"] if n in mp],
-            "exc": exc, "nontrivial": any(len(f) > 1 for f in p["fi"])}
+    evs = [{"kind": "ternary", "c": p, "t": proj(t) if t is not None else {}, "map": [[n, mp[n]] for n in p["names"] if n in mp],
+            "exc": exc, "nontrivial": any(len(f) > 1 for f in p["fi"])}]
+    r = ctx.rng("C10hist", p["n"], len(p["names"][-1]), sum(len(f) for f in p["fi"]))
+    flip = {"and": "nand", "nand": "and", "or": "nor", "nor": "or", "xor": "xnor", "xnor": "xor", "buf": "not", "not": "buf"}
+    gates = [n for n in sorted(c.nodes()) if c.type(n) in flip]
+    if not exc and not case.get("xconst") and gates and r.random() < 0.3:
+        # the same object, a gate re-typed in place (node and edge counts unchanged): nothing of the first call may be reused
+        g = r.choice(gates)
+        c.set_type(g, flip[c.type(g)])
+        exc2, t2, mp2 = "", None, {}
+        try:
+            t2, mp2 = cg.tx.ternary(c)
+        except Exception as e:
+            exc2 = type(e).__name__
+        p2 = proj(c)
+        evs.append({"kind": "ternary", "c": p2, "t": proj(t2) if t2 is not None else {}, "map": [[n, mp2[n]] for n in p2["names"] if n in mp2],
+                    "exc": exc2, "nontrivial": True})
+    return evs
 
 
 def negctl(e, rng):
